@@ -2,7 +2,11 @@
 (* Direction code -> spec for C15: one record per real run of calibrate / optimize / run_optimization.           *)
 (* [id, outcome ("returned" | "aborted"), before, after (digest strings of the caller's objects, sim_end incl.), *)
 (*  t0, t1 (objective terms at the starting point / at the returned point, already weighted and signed),        *)
-(*  vals, lows, highs (adjusted values and their bounds), total0, total1, hastotal]                              *)
+(*  vals, lows, highs (adjusted values and their bounds), total0, total1, hastotal,                              *)
+(*  haslib, lib0, lib1 (the objective the library itself evaluates at the starting / returned point),            *)
+(*  hard |-> << <<met0, met1>> >> (each hard target, judged independently from the documented meaning:          *)
+(*  at least / at most a threshold, increase / decrease by an absolute or fractional amount relative to the      *)
+(*  baseline instructions; summed over t == t0 or t0 <= t < t1), at the starting and at the returned point]      *)
 EXTENDS Big, Integers, Sequences, TLC, Json, IOUtils, FiniteSets
 Trace == JsonDeserialize(IOEnv.TRACE_FILE)
 VARIABLES i, bad
@@ -12,6 +16,9 @@ Failing(e) ==
 \cup (IF e.outcome = "returned" /\ ~SLe(Obj(e.t1), SAdd(Obj(e.t0), Tol(Obj(e.t0), K1e9, 64 + Len(e.t0)))) THEN {"NoWorse"} ELSE {})
 \cup (IF e.outcome = "returned" /\ \E j \in 1..Len(e.vals) : ~(SLe(e.lows[j], SAdd(e.vals[j], Tol(e.vals[j], K1e9, 8))) /\ (e.highs[j].s < 0 \/ SLe(e.vals[j], SAdd(e.highs[j], Tol(e.highs[j], K1e9, 8))))) THEN {"InBounds"} ELSE {})
 \cup (IF e.outcome = "returned" /\ e.hastotal /\ ~SClose(e.total1, e.total0, K1e6, 64) THEN {"HardTargetKept"} ELSE {})
+\cup (IF e.outcome = "returned" /\ \E j \in 1..Len(e.hard) : e.hard[j][1] /\ ~e.hard[j][2] THEN {"HardTargetMet"} ELSE {})
+\* the objective that is optimised is the documented sum (finite part: hard targets contribute 0 when met)
+\cup (IF e.outcome = "returned" /\ e.haslib /\ ~(SClose(e.lib0, Obj(e.t0), K1e9, 64 + Len(e.t0)) /\ SClose(e.lib1, Obj(e.t1), K1e9, 64 + Len(e.t1))) THEN {"ObjectiveDefinition"} ELSE {})
 Init == i = 1 /\ bad = {}
 Next == /\ i <= Len(Trace)
         /\ bad' = IF Cardinality(bad) > 60 THEN bad ELSE bad \cup {<<Trace[i].id, c>> : c \in Failing(Trace[i])}
